@@ -7,6 +7,7 @@ METHOD = {"X16": ("m_x16", 0), "X32": ("m_x32", 1)}
 
 
 class P(b1.Plugin):
+    type_names = None      # set below: names of the palette types, by index
     ops = ("into",)
     driver_traits = (("into", "Into"),)
     rule = ("struct/enum definitions with 1-4 fields per variant over source/target types whose conversions are pairwise "
@@ -72,6 +73,9 @@ class P(b1.Plugin):
 
     def canon(self, r):
         return r
+
+
+P.type_names = T
 
 
 def main(tier):
